@@ -200,9 +200,19 @@ def regrid_wiring(S):
 
                 contours = [C(0, 2.0), C(1, 2.1), C(2, 2.2)]  # contour 0 is the separatrix
                 wallvec = [0.0, 1.0]
+                # post-condition of the real resetNonorthogonalOptions: the region's option object is
+                # REPLACED by a freshly created one.  Before the reset the region still carries the
+                # method of the previous call (a different one); the regrid must follow the new object.
+                methods = ("combined", "perp_orthogonal_combined", "poloidal_orthogonal_combined")
+                stale = methods[(methods.index(method) + 1) % 3]
+
+                def reset(s_):
+                    log.append(("reset", dict(s_)))
+                    er.nonorthogonal_options = types.SimpleNamespace(nonorthogonal_spacing_method=method)
+
                 er = types.SimpleNamespace(
-                    resetNonorthogonalOptions=lambda s_: log.append(("reset", dict(s_))),
-                    nonorthogonal_options=types.SimpleNamespace(nonorthogonal_spacing_method=method),
+                    resetNonorthogonalOptions=reset,
+                    nonorthogonal_options=types.SimpleNamespace(nonorthogonal_spacing_method=method if settings is None else stale),
                     wallSurfaceAtStart=wallvec if wall_start else None, wallSurfaceAtEnd=wallvec if wall_end else None,
                     combineSfuncs=lambda *a, **k: ("combined", a, k), psi=None, extend_lower=2 if wall_start else 0, extend_upper=2 if wall_end else 0,
                 )  # fmt: skip
